@@ -52,7 +52,7 @@ pub fn expected_invocation(args: &str) -> Option<String> {
 
 pub fn run(ctx: &mut Ctx) {
     let sub = "pages";
-    let cases = ctx.n(100_000, 1_500_000);
+    let cases = ctx.n(100_000, 9_000_000);
     for idx in 0..cases {
         if ctx.stop() {
             break;
